@@ -130,6 +130,16 @@ func runC15(c *Ctx) {
 						"bytes delivered together with an error must still be charged against the limit")
 				} else if k, isK := core.ConstInt(ret.Results[0]); isK && k == 0 {
 					// limit error or bad-length error
+					if !core.Dominates(call, ret) {
+						isLimit := false
+						if mi, isMI := ret.Results[1].(*ssa.MakeInterface); isMI {
+							if al, isAl := mi.X.(*ssa.Alloc); isAl && core.NamedOf(al.Type()) == "LimitError" {
+								isLimit = true
+							}
+						}
+						c.check(isLimit, "C15.reader.limit-error", rd, "a return without asking r is the limit error", ret,
+							"any other early result (for instance (0, nil) for an empty buffer) hides the limit error and r's own errors from the caller")
+					}
 					if mi, isMI := ret.Results[1].(*ssa.MakeInterface); isMI {
 						if al, isAl := mi.X.(*ssa.Alloc); isAl && core.NamedOf(al.Type()) == "LimitError" {
 							okL := false
@@ -232,6 +242,22 @@ func runC15(c *Ctx) {
 				}
 			})
 			c.check(upd != nil && core.Dominates(call, upd), "C15.writer.offset-update", wr, "offset is advanced after forwarding", upd, "each forwarded chunk is accounted")
+			isUpd := func(in ssa.Instruction) bool {
+				st, ok := in.(*ssa.Store)
+				if !ok {
+					return false
+				}
+				fa, ok := st.Addr.(*ssa.FieldAddr)
+				return ok && fa.X == ssa.Value(w) && core.FieldName(fa) == "offset"
+			}
+			for _, ret := range core.Returns(wr) {
+				if !core.Dominates(call, ret) {
+					continue
+				}
+				mn, mx, okP := core.CountOnPaths(wr, call, ret, isUpd)
+				c.check(okP && mn == 1 && mx == 1, "C15.writer.offset-update", wr, "exactly one accounting store on every path from w.Write to a return", ret,
+					sprintf("min %d max %d: also when w.Write fails the forwarded chunk (and only it) is charged", mn, mx))
+			}
 			lincon.Reset()
 			a := lincon.New(c.P.SSA, core.InModule)
 			a.PreserveFields = func(ssa.CallInstruction) bool { return true }
@@ -264,7 +290,7 @@ func runC15(c *Ctx) {
 							(h.ProvesEQ(ln.Sub(lb)) || h.ProvesEQ(ln.Add(off).Sub(lim))))
 					}
 				case *ssa.Store:
-					if in == upd {
+					if fa, isFA := in.Addr.(*ssa.FieldAddr); isFA && fa.X == ssa.Value(w) && core.FieldName(fa) == "offset" {
 						nv, ok := h.Int(in.Val)
 						lim := h.Field(w, limIdx, "limit", true)
 						off := h.Field(w, offIdx, "offset", true)
